@@ -32,8 +32,13 @@ ASSUMPTIONS = [
     "the Cartesian force pair of a connect/weld constraint is the one whose generalized force equals J'f of its rows (sign and the "
     "rotational map taken from efc_J); sensors whose subtree boundary is crossed by a constraint for which this cannot be derived "
     "(rank-deficient relative Jacobian) are skipped and counted",
-    "framelinacc follows the accelerometer convention (gravity included as world acceleration -g): the documentation only says "
-    "'linear acceleration ... in global coordinates'; quaternion outputs are compared up to sign",
+    "framelinacc on a frame that moves with at least one dof follows the accelerometer convention (gravity included as world "
+    "acceleration -g; the engine and the reference agree there). The documentation only says 'returns the 3D linear acceleration of "
+    "the spatial frame of the object, in global coordinates' and does not mention gravity, so for a frame attached to a dof-less "
+    "(static or mocap) body BOTH readings are accepted: the literal kinematic value 0 and the accelerometer-convention value -g "
+    "(counters framelinacc_dofless_body:reads-zero / :reads-minus-gravity / :indistinguishable say which one was seen; audit B1). The "
+    "accelerometer itself is documented 'including gravity', so 0 on a resting static site stays a violation (known finding). "
+    "Quaternion outputs are compared up to sign",
     "touch: the 'normal ray' leaves the sensorised body towards the other body; contacts whose ray grazes the zone (outcome differs "
     "under 1e-9 displacements) may be counted either way; rangefinder: readings within the displaced-ray interval of vf/ref/ray.py "
     "are accepted near tangencies/edges (C16 owns ray casting), normal output and camera rangefinders are not modelled",
@@ -362,6 +367,11 @@ def check_state(L, m, d, R, P, qpos_in, witness, state_idx, isolate):
             P.count("readings_cutoff_on_unit_type")
         for t in r.tags:
             P.count("readings_" + t)
+        if "static-frame-linacc" in r.tags and bad is None:
+            # framelinacc on a dof-less body: 0 and -gravity are both documented readings; record which one the engine gives
+            is0 = bool(np.all(np.abs(got - SR.apply_cutoff(r.alts[0].val, cutoff, dtype, C)) <= r.alts[0].tol))
+            isg = bool(np.all(np.abs(got - SR.apply_cutoff(r.val, cutoff, dtype, C)) <= r.tol))
+            P.count("framelinacc_dofless_body:" + ("indistinguishable" if is0 and isg else "reads-zero" if is0 else "reads-minus-gravity"))
         err = float(np.max(np.abs(got - r.val) / (r.tol / SR.RTOL + 1e-300))) if (not r.alts and not r.quat and not clamped and r.interval is None and np.all(r.tol > 0)) else 0.0
         if bad is None:
             P.note_max("max_err_over_scale", err)
@@ -385,12 +395,14 @@ def check_state(L, m, d, R, P, qpos_in, witness, state_idx, isolate):
                     specific = True
                 else:
                     sig += ":weld-constraint-across-subtree-boundary"
-            if "static-body" in r.tags and not np.any(got) and np.any(np.abs(r.val) > r.tol):
-                sig = "static-body-acceleration-reads-zero-gravity-dropped:" + k.lower()
+            # accelerometer ("linear acceleration of the site (including gravity)") on a dof-less body: the reference is R'(-g)
+            # exactly (no kinematic term exists there), the engine's quick return gives exact zeros
+            if kinds[i] == "ACCELEROMETER" and "static-body" in r.tags and not np.any(got) and np.any(np.abs(r.val) > r.tol):
+                sig = "static-body-acceleration-reads-zero-gravity-dropped:accelerometer"
                 specific = True
             if cutoff > 0:
                 if specific:
-                    sig += ":cutoff"
+                    pass        # mechanism confirmed with the documented cutoff applied on top: same signature with and without cutoff
                 elif judge(r, got, 0.0, dtype, C) is None:
                     sig = "cutoff-not-applied:" + k.lower()
                 elif dtype != C["mjDATATYPE_REAL"] and np.all(np.abs(got - SR.apply_cutoff(r.val, cutoff, C["mjDATATYPE_REAL"], C)) <= r.tol + 1e-12):
